@@ -739,6 +739,73 @@ func (e *Env) callExpr(n *ast.CallExpr) Val {
 		body := ne.evalBool(n.Args[2])
 		e.quant = true
 		return boolVal(fmt.Sprintf("(forall ((%s Int)) (! (=> (and (<= %s %s) (< %s %s)) %s) :pattern (%s)))", av, sv.S[0], av, av, add(sv.S[0], sv.S[1]), body, sel(arr, av)))
+	case "framed":
+		// framed(): every heap cell that existed at function entry and lies outside the function's modifies set still holds
+		// its entry value (an intermediate form of the frame obligation, useful as a stepping stone in long functions)
+		argc(0)
+		if e.f == nil || e.old == nil {
+			specErrf("framed() is only available inside a function body")
+		}
+		ct := e.f.ct
+		entry := &state{reach: e.f.entryR, mem: e.f.entry}
+		fenv := e.u.funcEnv(e.f.fn, e.f.params, nil, entry, entry)
+		var ranges map[string][]func(a string) string
+		if ct != nil {
+			ranges, _ = e.u.modRanges(ct, fenv)
+		}
+		var cs []string
+		var sites []string
+		for sname := range e.st.mem.arr {
+			sites = append(sites, sname)
+		}
+		sortStringsInPlace(sites)
+		for _, sname := range sites {
+			if strings.HasPrefix(sname, "ghost.") || strings.HasPrefix(sname, "iter.") || sname == strSite {
+				continue
+			}
+			srt := e.u.siteSort[sname]
+			m0 := e.u.arr(e.f.entry, sname, srt)
+			mc := e.st.mem.arr[sname]
+			if m0 == mc {
+				continue
+			}
+			cs = append(cs, fmt.Sprintf("(forall ((a! Int)) (! (=> (and (< a! %s) %s) (= (select %s a!) (select %s a!))) :pattern ((select %s a!))))", e.f.entry.alloc, not(inAny(ranges[sname], "a!")), mc, m0, mc))
+		}
+		e.quant = true
+		return boolVal(and(cs...))
+	case "sameBytes":
+		// sameBytes(a, b): byte slices/strings of equal length and content; either argument may be wrapped in old(...).
+		// Quantified over the addresses of a, so any read of a's array triggers the instantiation.
+		argc(2)
+		evalIn := func(x ast.Expr) (Val, string) {
+			if c, ok := x.(*ast.CallExpr); ok {
+				if id, ok := c.Fun.(*ast.Ident); ok && id.Name == "old" && len(c.Args) == 1 {
+					if e.old == nil {
+						specErrf("old() not available here")
+					}
+					ne := *e
+					ne.st = e.old
+					v := ne.eval(c.Args[0])
+					site := byteSite
+					if isStringT(v.T) {
+						site = strSite
+					}
+					return v, ne.arr(site, SBV(8))
+				}
+			}
+			v := e.eval(x)
+			site := byteSite
+			if isStringT(v.T) {
+				site = strSite
+			}
+			return v, e.arr(site, SBV(8))
+		}
+		a, arrA := evalIn(n.Args[0])
+		b, arrB := evalIn(n.Args[1])
+		e.quant = true
+		av := quoteSym("q!sb")
+		return boolVal(and(eq(a.S[1], b.S[1]), fmt.Sprintf("(forall ((%s Int)) (! (=> (and (<= %s %s) (< %s %s)) (= (select %s %s) (select %s (+ %s (- %s %s))))) :pattern ((select %s %s))))",
+			av, a.S[0], av, av, add(a.S[0], a.S[1]), arrA, av, arrB, b.S[0], av, a.S[0], arrA, av)))
 	case "forallb", "existsb":
 		// forallb(k, bits, P): quantify over a bit-vector of the given width
 		if len(n.Args) != 3 {
@@ -935,14 +1002,19 @@ func (e *Env) callSpec(sf *SpecFunc, args []ast.Expr) Val {
 	}
 	e.quant = true
 	def := u.defineSpec(sf)
-	var actual []string
+	var actual, allLeaves []string
 	for i, a := range args {
 		pt := e.specType(sf.Pkg, sf.Params[i].Type)
 		v := coerce(e.eval(a), pt)
 		if isIntSort(pt) && !isUntyped(v) && !isIntSort(v.T) {
 			specErrf("spec %s: argument %d must be int", sf.Name, i)
 		}
-		actual = append(actual, v.S...)
+		for k, t := range v.S {
+			if def.used == nil || def.used[len(allLeaves)+k] {
+				actual = append(actual, t)
+			}
+		}
+		allLeaves = append(allLeaves, v.S...)
 	}
 	for _, site := range def.sites {
 		actual = append(actual, e.arr(site, u.siteSort[site]))
@@ -967,6 +1039,10 @@ type specDef struct {
 	sym   string
 	sites []string
 	rec   bool
+	used  []bool // per flattened parameter leaf: does the body mention it (unused leaves are not parameters)
+	frameItem string
+	fNames    []string
+	fSorts    []string
 }
 
 func (u *Unit) defineSpec(sf *SpecFunc) *specDef {
@@ -983,8 +1059,17 @@ func (u *Unit) defineSpec(sf *SpecFunc) *specDef {
 			pkg = sp.Pkg
 		}
 	}
+	// start from "no parameter leaf is used" and grow (a leaf that is only passed on to the recursive call is not used)
+	{
+		probe := &Env{u: u}
+		n := 0
+		for _, p := range sf.Params {
+			n += len(leavesOf(probe.specType(sf.Pkg, p.Type), "elem"))
+		}
+		d.used = make([]bool, n)
+	}
 	// iterate until the set of heap sites read by the body is stable
-	for iter := 0; iter < 4; iter++ {
+	for iter := 0; iter < 8; iter++ {
 		env := &Env{u: u, st: &state{reach: "true", mem: &Mem{arr: map[string]string{}, alloc: "0"}}, bound: map[string]Val{}, pkg: pkg, specSites: map[string]string{}, specSelf: sf}
 		for _, s := range d.sites {
 			env.specSites[s] = quoteSym("H:" + s)
@@ -1008,6 +1093,41 @@ func (u *Unit) defineSpec(sf *SpecFunc) *specDef {
 			sites = append(sites, s)
 		}
 		sortStringsInPlace(sites)
+		// which parameter leaves does the body mention?
+		bodySyms := map[string]bool{}
+		for _, t := range symsOf(body.S[0]) {
+			bodySyms[t] = true
+		}
+		var used []bool
+		var keptFormals []string
+		for _, fm := range formals {
+			inner := fm[1 : len(fm)-1]
+			nm := inner
+			if strings.HasPrefix(inner, "|") {
+				j := strings.Index(inner[1:], "|")
+				nm = inner[:j+2]
+			} else if j := strings.Index(inner, " "); j > 0 {
+				nm = inner[:j]
+			}
+			used = append(used, bodySyms[nm])
+			if bodySyms[nm] {
+				keptFormals = append(keptFormals, fm)
+			}
+		}
+		usedStable := d.used != nil && len(d.used) == len(used)
+		if usedStable {
+			for i := range used {
+				if used[i] != d.used[i] {
+					usedStable = false
+				}
+			}
+		}
+		if !usedStable {
+			d.used = used
+			d.sites = sites
+			continue
+		}
+		formals = keptFormals
 		if strings.Join(sites, ",") == strings.Join(d.sites, ",") {
 			for _, s := range sites {
 				formals = append(formals, fmt.Sprintf("(%s %s)", quoteSym("H:"+s), SArr(SInt, u.siteSort[s])))
@@ -1043,6 +1163,10 @@ func (u *Unit) defineSpec(sf *SpecFunc) *specDef {
 				sym, strings.Join(sorts, " "), rs,
 				strings.Join(formals, " "), lhsS, body.S[0], lhsS,
 				strings.Join(formals, " "), lhsS, lhs0, lhsS))
+			d.fNames, d.fSorts = names, sorts
+			if sf.ReadsParam != "" && len(sites) == 1 && !u.noFrameAxioms {
+				u.frameAxiom(sf, d, sym, formals, names, sorts, sites[0])
+			}
 			return d
 		}
 		d.sites = sites
@@ -1057,4 +1181,132 @@ func sortStringsInPlace(s []string) {
 			s[j], s[j-1] = s[j-1], s[j]
 		}
 	}
+}
+
+
+// frameAxiom: a recursive spec function with a declared footprint has the same value in two heaps that agree on the
+// footprint. The axiom is justified by the lemma unit "framelemma:<pkg>.<name>" (proved by induction, see encodeFrameLemma).
+func (u *Unit) frameAxiom(sf *SpecFunc, d *specDef, sym string, formals, names, sorts []string, site string) {
+	// locate the formal names of the read slice's pointer and of the bound
+	ptrName, hiName := "", ""
+	for _, n := range names {
+		if n == quoteSym("p!"+sf.ReadsParam+".0") {
+			ptrName = n
+		}
+		if n == quoteSym("p!"+sf.ReadsHi+".0") {
+			hiName = n
+		}
+	}
+	if ptrName == "" || hiName == "" {
+		return
+	}
+	hName := quoteSym("H:" + site)
+	var fs1, args1, args2 []string
+	for i, n := range names {
+		if n == hName {
+			continue
+		}
+		fs1 = append(fs1, fmt.Sprintf("(%s %s)", n, sorts[i]))
+		args1 = append(args1, n)
+		args2 = append(args2, n)
+	}
+	arrSort := SArr(SInt, u.siteSort[site])
+	lo, err := strconvAtoi(sf.ReadsLo)
+	if err != nil {
+		return
+	}
+	a1 := app(sym, append(append([]string{"f!"}, args1...), "H1!")...)
+	a2 := app(sym, append(append([]string{"g!"}, args2...), "H2!")...)
+	body := fmt.Sprintf("(=> (forall ((a! Int)) (=> (and (<= (+ %s %d) a!) (< a! (+ %s %s))) (= (select H1! a!) (select H2! a!)))) (= %s %s))", ptrName, lo, ptrName, hiName, a1, a2)
+	u.ctx.raw(sym+"!frame", fmt.Sprintf("(assert (forall ((f! Fuel) (g! Fuel) %s (H1! %s) (H2! %s)) (! %s :pattern (%s %s))))", strings.Join(fs1, " "), arrSort, arrSort, body, a1, a2))
+	u.usedLemmas["frame:"+sf.Pkg+"."+sf.Name] = true
+	d.frameItem = sym + "!frame"
+}
+
+func strconvAtoi(s string) (int, error) {
+	n := 0
+	if s == "" {
+		return 0, fmt.Errorf("empty")
+	}
+	for _, c := range s {
+		if c < '0' || c > '9' {
+			return 0, fmt.Errorf("not a number")
+		}
+		n = n*10 + int(c-'0')
+	}
+	return n, nil
+}
+
+
+// encodeFrameLemma proves the frame axiom of a recursive spec function by induction on its bound parameter.
+func encodeFrameLemma(p *Program, db *ContractDB, key string) *UnitResult {
+	sf := db.Specs[key]
+	res := &UnitResult{Key: "framelemma:" + key}
+	if sf == nil || sf.ReadsParam == "" {
+		res.Rejected = "no such spec function with a reads clause"
+		return res
+	}
+	u := newUnit(p, db, nil)
+	u.rootKey = "framelemma:" + key
+	res.unit = u
+	defer func() {
+		if r := recover(); r != nil {
+			res.Rejected = fmt.Sprint(r)
+		}
+	}()
+	u.noFrameAxioms = true
+	d := u.defineSpec(sf)
+	if !d.rec || len(d.sites) != 1 {
+		res.Rejected = "frame lemma needs a recursive spec function over one heap site"
+		return res
+	}
+	site := d.sites[0]
+	hName := quoteSym("H:" + site)
+	arrSort := SArr(SInt, u.siteSort[site])
+	h1 := u.ctx.declare("H1!", arrSort)
+	h2 := u.ctx.declare("H2!", arrSort)
+	var args []string
+	ptr, hi := "", ""
+	for i, n := range d.fNames {
+		if n == hName {
+			continue
+		}
+		c := u.ctx.declare(quoteSym("fl."+strings.Trim(n, "|")), d.fSorts[i])
+		args = append(args, c)
+		if n == quoteSym("p!"+sf.ReadsParam+".0") {
+			ptr = c
+		}
+		if n == quoteSym("p!"+sf.ReadsHi+".0") {
+			hi = c
+		}
+	}
+	lo, err := strconvAtoi(sf.ReadsLo)
+	if ptr == "" || hi == "" || err != nil {
+		res.Rejected = "reads clause must be d[<const>:<int parameter>]"
+		return res
+	}
+	mk := func(hiTerm string) string {
+		var a1, a2 []string
+		for _, a := range args {
+			if a == hi {
+				a1 = append(a1, hiTerm)
+				a2 = append(a2, hiTerm)
+			} else {
+				a1 = append(a1, a)
+				a2 = append(a2, a)
+			}
+		}
+		f1 := app(d.sym, append(append([]string{"(SF (SF ZF))"}, a1...), h1)...)
+		f2 := app(d.sym, append(append([]string{"(SF (SF ZF))"}, a2...), h2)...)
+		return fmt.Sprintf("(=> (forall ((a! Int)) (=> (and (<= (+ %s %d) a!) (< a! (+ %s %s))) (= (select %s a!) (select %s a!)))) (= %s %s))", ptr, lo, ptr, hiTerm, h1, h2, f1, f2)
+	}
+	pk := mk(hi)
+	base := &state{reach: u.ctx.def("fl.base", SBool, le(hi, "0")), mem: u.entryMem}
+	o := u.oblige(nil, base, "lemma", "frame."+sf.Name+"/base", 0, pk)
+	o.Quant = true
+	step := &state{reach: u.ctx.def("fl.step", SBool, and(le("0", hi), pk)), mem: u.entryMem}
+	o2 := u.oblige(nil, step, "lemma", "frame."+sf.Name+"/step", 0, mk(add(hi, "1")))
+	o2.Quant = true
+	res.Obls = u.obls
+	return res
 }
